@@ -111,6 +111,26 @@ theorem C05_children_of_type {h : Heap} (T : TreeHeap h) (typ : Nat) (fol : Nat 
   rw [C05_children_mem T _ fol cf fuel root hf x]
   simp
 
+/-- **A type-directed search may skip sub-trees only when they hold no object of the type.**
+`get_children_of_type` may be given (or may wrap the caller's `should_follow` in) a predicate
+`worth` that refuses objects: Python's `lambda o: worth(o) and should_follow(o)`.  If `worth`
+refuses only objects below which (themselves included, following `should_follow`) no object of
+class `typ` lives, the result is the same list — same objects, same order, for both orders, any
+start object, any fuel.  The hypothesis is about the *model* (the classes of the objects actually
+contained), not about what a meta-model declares for an attribute: an attribute assigned from
+several rules has the generic meta-class `OBJECT`, its declared type says nothing about the classes
+below it. -/
+theorem C05_children_of_type_pruned {h : Heap} (typ : Nat) (fol worth : Nat → Bool) (cf : Bool)
+    (fuel root : Nat) (T : TreeHeap h)
+    (hw : ∀ y, worth y = false → ∀ x, Reach h fol y x → clsOf h x ≠ some typ) :
+    getChildrenOfType h typ (fun c => worth c && fol c) cf fuel root
+      = getChildrenOfType h typ fol cf fuel root := by
+  unfold getChildrenOfType
+  rw [getChildren_eq T, getChildren_eq T]
+  apply descO_filter_prune
+  intro y hy x hx
+  simpa using hw y hy x hx
+
 /-- **References never introduce extra children.**  The result of `get_children` depends only
 on which objects exist and on the contents of the containment attributes: two heaps that agree
 on these (in particular: before / after reference resolution, or with any reference attribute
@@ -430,5 +450,45 @@ common rule behind it is the result (`C05_abstract_selection`, first clause) -/
 example : (build exTruthy exMM (.nt (.obj 0) [.term 0 1 false true,
       .nt (.asgn 1 .plain) [.nt .abs [.nt (.mat true) [.term 2 1 false true, .term 3 1 false true], exKid 4 []]]])).map
       (fun r => (r.1, contIds r.2.heap 0)) = some (.obj 0, [1]) := by decide
+
+
+/-! ## pruning: the seeded optimisation in miniature
+
+`Config: entries+=Entry; Entry: name=ID (value=List | value=Map | value=Scalar); Scalar: v=INT;` — root (class 0)
+holds an entry (class 1) whose single containment attribute (multi-typed in the grammar, meta-class `OBJECT`) holds an
+object of class 2. -/
+def exPruneMM : Nat → List MetaAttr := fun c => [⟨c, c == 0, true⟩]
+
+def exPruneTree : PT :=
+  .nt (.obj 0) [.term 0 1 false true,
+    .nt (.asgn 0 .many) [.nt (.obj 1) [.term 2 1 false true,
+      .nt (.asgn 1 .plain) [.nt (.obj 2) [.nt (.asgn 2 .plain) [.term 4 1 false true]]]]]]
+
+def exPruneHeap : Heap := match build exTruthy exPruneMM exPruneTree with
+  | some (_, s) => s.heap
+  | none => []
+
+example : exPruneHeap.map (fun o => (o.cls, o.parent)) = [(0, none), (1, some 0), (2, some 1)] := by decide
+example : getChildrenOfType exPruneHeap 2 (fun _ => true) false 3 0 = [2] := by decide
+/-- a sound `worth` (refuses nothing that leads to class 2) is inert … -/
+example : getChildrenOfType exPruneHeap 1 (fun c => c != 2 && true) true 3 0 = [1] := by decide
+
+theorem exPruneTreeHeap : TreeHeap exPruneHeap := by
+  cases hb : build exTruthy exPruneMM exPruneTree with
+  | none => exact absurd hb (by decide)
+  | some r =>
+    have := (C05_build_tree exTruthy exPruneMM exPruneTree r.1 r.2 hb).1
+    simpa [exPruneHeap, hb] using this
+
+/-- … and the hypothesis of `C05_children_of_type_pruned` cannot be dropped: a `worth` that refuses the entry
+("nothing of class 2 can live below an attribute of type `OBJECT`") loses the object below it. -/
+theorem C05_children_of_type_pruned_false :
+    ¬ ∀ (h : Heap) (typ : Nat) (fol worth : Nat → Bool) (cf : Bool) (fuel root : Nat), TreeHeap h →
+      getChildrenOfType h typ (fun c => worth c && fol c) cf fuel root
+        = getChildrenOfType h typ fol cf fuel root := by
+  intro hall
+  have := hall exPruneHeap 2 (fun _ => true) (fun c => c != 1) false 3 0 exPruneTreeHeap
+  revert this
+  decide
 
 end Obj
